@@ -156,11 +156,13 @@ func (c *Ctx) errOutcome(fn *ssa.Function, p CPath) int {
 	if c.nonNilOnPath(p, ds, v) {
 		return 1
 	}
-	// any value tested `!= nil` with the true arm taken
+	// the last test of this value against nil on the path decides (a value defined in a loop
+	// or in a helper spliced more than once may have been tested in an earlier life)
+	out := -1
 	for _, tk := range p.Ifs() {
 		ifi := tk.If
 		op, x, y, neg, isBin := condOf(ifi.Cond)
-		if !isBin {
+		if !isBin || (op != token.NEQ && op != token.EQL) {
 			continue
 		}
 		arm := tk.Arm
@@ -173,11 +175,17 @@ func (c *Ctx) errOutcome(fn *ssa.Function, p CPath) int {
 		} else if isNilConst(x) {
 			e = y
 		}
-		if e != nil && (e == v || p.Resolve(e) == v) && ((op == token.NEQ && arm) || (op == token.EQL && !arm)) {
-			return 1
+		if e == nil || !(e == v || p.Resolve(e) == v) {
+			continue
+		}
+		if (op == token.NEQ) == arm {
+			out = 1
+		} else {
+			// found nil by a test on the path (in the function, or in a function literal it defers)
+			out = 0
 		}
 	}
-	return -1
+	return out
 }
 
 // flagInit: the initial value of a captured one-bit flag at the backoff.Retry
@@ -293,7 +301,75 @@ func checkC18(c *Ctx, r *Report) {
 			r.Unk(fname+"|loop", s.Fn.Pos(), "loop in closure")
 			continue
 		}
-		var flagCell *ssa.FreeVar
+		// the state that tells the first invocation from the later ones: a scalar cell shared
+		// with the starting function (a captured flag, or a field of the operation's state
+		// object — a boolean, an enumeration or a counter) that the operation itself updates
+		var stateCell Cell
+		haveCell, cellWhy := false, "no first-attempt state: the operation reads no scalar cell shared with its caller that it also updates"
+		var v0 int64
+		later := map[int64]bool{}
+		if s.Command {
+			var cands []Cell
+			for _, cl := range scalarCellsOf(s.Fn) {
+				written := false
+				rawInstrs(s.Fn, false, func(in ssa.Instruction) {
+					if c2, _, ok := cellStore(in); ok && c2 == cl {
+						written = true
+					}
+				})
+				if written {
+					cands = append(cands, cl)
+				}
+			}
+			if len(cands) == 1 {
+				stateCell = cands[0]
+				var okInit bool
+				v0, okInit = cellInitial(stateCell, s.Parent, s.Retry)
+				if !okInit {
+					cellWhy = "the state's initial value before backoff.Retry cannot be determined (not a fresh per-call cell with at most one constant store before Retry)"
+				} else {
+					haveCell = true
+					var steps []cellStep
+					okSteps := true
+					enumPaths(s.Fn, 1, 4096, func(p CPath) {
+						st, ok := cellStepOf(p, stateCell)
+						if !ok {
+							okSteps = false
+						}
+						steps = append(steps, st)
+					})
+					if !okSteps {
+						haveCell = false
+						cellWhy = "the operation uses its first-attempt state in a way that cannot be read as test-then-update"
+					}
+					// values the cell can hold at the start of the 2nd, 3rd, … invocation
+					frontier := []int64{v0}
+					for round := 0; round < 8 && len(frontier) > 0; round++ {
+						var next []int64
+						for _, v := range frontier {
+							for _, st := range steps {
+								if !st.Pred(v) {
+									continue
+								}
+								nv := st.Next(v)
+								if !later[nv] {
+									later[nv] = true
+									next = append(next, nv)
+								}
+							}
+						}
+						frontier = next
+					}
+					if len(frontier) > 0 {
+						// still growing: a counter; large values stand for the rest
+						later[1<<40] = true
+						later[1<<40+1] = true
+					}
+				}
+			} else if len(cands) > 1 {
+				cellWhy = "more than one candidate for the first-attempt state"
+			}
+		}
 		enumPaths(s.Fn, 1, 4096, func(p CPath) {
 			evs := mi.pathEvents(p)
 			for _, e := range evs {
@@ -309,66 +385,39 @@ func checkC18(c *Ctx, r *Report) {
 				return
 			}
 			r.Rule("closure-accounting", "per closure invocation: command_retries_total is incremented exactly on invocations after the first (captured one-bit flag, initialised true, cleared on first use); command_responses_total exactly once, labelled with the decoded completion code, on exactly the paths that reach the final/temporary classification", 10)
-			// first-attempt flag
-			var flag *Decision
-			for i := range ds {
-				if strings.HasPrefix(ds[i].Kind, "flag:") {
-					flag = &ds[i]
-					break
-				}
-			}
+			// first or later invocation: decided by which values of the state let this path run
 			okRetry := false
 			why := ""
-			if flag == nil {
-				why = "no first-attempt flag is consulted on this path"
+			if !haveCell {
+				why = cellWhy
 			} else {
-				ld := flag.If.Cond
-				for {
-					if u, ok := ld.(*ssa.UnOp); ok && u.Op == token.NOT {
-						ld = u.X
-						continue
-					}
-					break
-				}
-				cell, _ := ld.(*ssa.UnOp).X.(*ssa.FreeVar)
-				flagCell = cell
-				// polarity-agnostic: the flag holds its initial value exactly on the first
-				// invocation; every invocation must leave it at the other value
-				initVal, initOK := flagInit(cell, s)
-				if !initOK {
-					why = "the flag's initial value before backoff.Retry cannot be determined"
-				}
-				loadAt, storeAt := -1, -1
-				cleared := false
-				for k, in := range p.Instrs() {
-					if in == ssa.Instruction(ld.(*ssa.UnOp)) && loadAt < 0 {
-						loadAt = k
-					}
-					if fc, v, ok := capturedCellStore(in); ok && fc == cell {
-						if storeAt < 0 {
-							storeAt = k
-						}
-						if kv, isK := v.(*ssa.Const); isK && kv.Value != nil && kv.Value.Kind() == constant.Bool && constant.BoolVal(kv.Value) == !initVal {
-							cleared = true
-						} else {
-							why = "the flag is set to something other than the negation of its initial value"
-						}
+				st, _ := cellStepOf(p, stateCell)
+				first := st.Pred(v0)
+				again := false
+				for v := range later {
+					if st.Pred(v) {
+						again = true
 					}
 				}
-				if storeAt >= 0 && loadAt > storeAt {
-					why = "the flag is read after it has been updated"
-				}
-				first := flag.Arm == initVal // the loaded value equals the initial one
-				if first {
-					okRetry = retries == 0 && cleared && why == ""
-					if !okRetry && why == "" {
-						why = fmt.Sprintf("first invocation: retries incremented %d times, flag flipped=%v", retries, cleared)
+				switch {
+				case first && again:
+					why = fmt.Sprintf("this path runs on the first invocation and on later ones alike (retries incremented %d times): the first-attempt state is not consulted, or does not separate them", retries)
+				case first:
+					okRetry = retries == 0
+					if !okRetry {
+						why = fmt.Sprintf("first invocation: retries incremented %d times", retries)
 					}
-				} else {
-					okRetry = retries == 1 && why == "" && (cleared || storeAt < 0)
-					if !okRetry && why == "" {
+				case again:
+					okRetry = retries == 1
+					if !okRetry {
 						why = fmt.Sprintf("re-invocation: retries incremented %d times (want 1)", retries)
 					}
+				default:
+					okRetry = true // no state value lets this path run
+				}
+				if later[v0] && why == "" {
+					okRetry = false
+					why = "the first-attempt state can return to its initial value: a later invocation would be taken for the first"
 				}
 			}
 			wantResp := 0
@@ -401,13 +450,8 @@ func checkC18(c *Ctx, r *Report) {
 			}
 		})
 		if s.Command {
-			r.Rule("first-attempt-flag", "the first-attempt flag is a fresh cell per call, initialised true before backoff.Retry and written nowhere else", 2)
-			if flagCell == nil {
-				r.Bad(c.FnName(s.Parent)+"|first-attempt flag", s.Parent.Pos(), "no first-attempt flag")
-			} else {
-				_, ok := flagInit(flagCell, s)
-				r.Check(ok, c.FnName(s.Parent)+"|first-attempt flag", s.Parent.Pos(), "a fresh cell per call with one constant initial value before Retry", "the first-attempt flag is not a fresh per-call cell with a single constant initial value set before backoff.Retry")
-			}
+			r.Rule("first-attempt-flag", "the first-attempt state is a fresh cell per call with one constant initial value before backoff.Retry, left for good by the first invocation", 2)
+			r.Check(haveCell && !later[v0], c.FnName(s.Parent)+"|first-attempt flag", s.Parent.Pos(), "a fresh cell per call with one constant initial value before Retry, never restored", "the first-attempt state is not a fresh per-call cell with a single constant initial value set before backoff.Retry ("+cellWhy+")")
 		}
 	}
 
